@@ -523,7 +523,12 @@ def run_paths(case, workdir: Path):
         adir = {"none": None, "str": str(A), "path": A}[mode]
         bdir = {"none": None, "str": str(B), "path": B}[mode]
         f = tmp / "out" / "doc.json"
-        saved, _ = outcome_of(lambda: io.save(root, f, audio_dir=adir))
+        call = case.get("call", "default")
+        skw = {"format": "aoef"} if call == "format_aoef" else ({"format": None} if call == "format_none" else {})
+        lkw = dict(skw)
+        if call == "typed":
+            lkw["type"] = case["ctype"]
+        saved, _ = outcome_of(lambda: io.save(root, f, audio_dir=adir, **skw))
         out = {"saved": saved, "file_exists": f.exists(), "loaded": "", "loadedN": "", "A": comps(A), "B": comps(B), "recs": []}
         table = {str(r.uuid): {"id": rev[str(r.uuid)], "orig": comps(r.path), "stored": [""], "atB": [""], "atNone": [""], "count": 0}
                  for r in recs}
@@ -533,7 +538,7 @@ def run_paths(case, workdir: Path):
                 if r["uuid"] in table:
                     table[r["uuid"]]["stored"] = comps(r["path"])
             if mode != "none":
-                out["loaded"], objB = outcome_of(lambda: io.load(f, audio_dir=bdir))
+                out["loaded"], objB = outcome_of(lambda: io.load(f, audio_dir=bdir, **lkw))
                 if out["loaded"] == "":
                     seen = {}
                     for r in recordings_in(objB):
@@ -542,7 +547,7 @@ def run_paths(case, workdir: Path):
                         if u in table:
                             table[u]["atB"] = list(sorted(ps)[0])
                             table[u]["count"] = len(ps)
-            out["loadedN"], objN = outcome_of(lambda: io.load(f))
+            out["loadedN"], objN = outcome_of(lambda: io.load(f, **lkw))
             if out["loadedN"] == "":
                 seen = {}
                 for r in recordings_in(objN):
